@@ -18,6 +18,19 @@ CLAIMS = {
         "note": TRUSTED + "; exception-class hierarchy table for third-party classes (DESIGN Appendix B)",
         "technique": "CFG with exception edges: catch-all coverage, must-pass-through, value-set dataflow of status variables, plumbing tables",
     },
+    "C06": {
+        "text": "Sibling-agreement / plumbing / pairing analysis of the transports in the current source: requests and "
+                "WSGI register serializers for the same media types (ASGI copies from requests) and same-named serializers "
+                "use the same shared encoder; with a body present Content-Type is the case's media type and the serializer "
+                "is chosen by it; method, URL, query, cookies, headers of the request mapping come from the case; both "
+                "pipelines that produce path parameters (fuzzing strategy, coverage template) pass them through quote_all "
+                "which encodes '.' and '..' explicitly; the header mapping is written only from the sanctioned sources; "
+                "cookies put on a reused WSGI client are removed on every exit (CFG incl. exceptions thrown at the yield). "
+                "Not decided: the round-trip law itself (needs a decoder and values) for each serialization style.",
+        "design_ref": "DESIGN.md §4 C06",
+        "note": TRUSTED,
+        "technique": "registry agreement between sibling transports, keyword/def-use plumbing, who-may-write of the header mapping, CFG pairing of set/delete cookie",
+    },
     "C07": {
         "text": "Who-must-call / dominance / plumbing analysis over all paths of the current source: each of the five "
                 "operation enumerators (OpenAPI and GraphQL get_all_operations, _measure_statistic, _operation_iter) "
@@ -46,6 +59,19 @@ CLAIMS = {
         "design_ref": "DESIGN.md §4 C08",
         "note": TRUSTED,
         "technique": "CFG pairing (release post-dominates acquire on all exits), computed producer/consumer policy, sibling agreement of constructors, who-may-call for YAML loads",
+    },
+    "C09": {
+        "text": "Flow / plumbing analysis of the reproduction command in the current source: every value interpolated "
+                "into the curl command string is a constant, wrapped in shlex.quote (resolved through the module's "
+                "imports), or the one named exception (the HTTP method token); the code sample recorded for a failure is "
+                "built for the failing case from the headers and verify flag of the recorded request; as_curl_command "
+                "feeds curl.generate from the prepared request and passes the case's own headers as known_generated_"
+                "headers; _filter_headers deletes a header only if it is auto-added AND not carried by the case. Not "
+                "decided: curl's own option semantics (-d @file, empty header values), POSIX shell word splitting beyond "
+                "shlex.quote's contract.",
+        "design_ref": "DESIGN.md §4 C09",
+        "note": TRUSTED + "; shlex.quote's contract",
+        "technique": "taint flow into a shell command with quote() as sanitizer, def-use plumbing of recorded headers",
     },
     "C10": {
         "text": "Exhaustiveness / guard / error-discipline analysis of the link machinery in the current source: the "
